@@ -1,7 +1,7 @@
 CONSTANTS
   Kind = "x"
   MaxE = 2
-  MaxUR = 3
+  MaxUR = 1
   MaxF = 2
   UseStop = FALSE
   Flat = FALSE
